@@ -1,11 +1,17 @@
 """C19 — client-library primitives keep their textbook guarantees over TCP.
 
-Proof side : coq/Gen/GenClient.v (regenerated from /repo/client/*.go by gen/clientparams on every run)
+Proof side : coq/Gen/GenClient.v (regenerated from /repo/client/*.go + server/db.go switches by gen/clientparams on every run)
              -> coq/Client/Prims.v, PrimsProofs.v -> coq/Properties/C19.v  (admission model, all operation sequences)
+             -> coq/Client/WaitQueue.v -> coq/Properties/C19_handover.v     (wait queue, timeouts, wake-up pass, hand-over)
 Runtime side: harness/client (c19run) starts a REAL slock server built from the checked tree (child process,
              loopback ports 15600-15699, scratch dir /tmp/c19-*), optionally a follower and a cutting TCP proxy,
              drives the Go client primitives from 2..64 goroutines on 1..8 connections and evaluates the property's
              monitors on the recorded client-side history (global logical clock).
+             Hand-over scenarios (kind "handover", harness/client/scenario_handover.go): rounds in which waiters with SHORT
+             acquire timeouts time out (Lock: are cancelled) while others, confirmed queued by the server's admin listing,
+             keep waiting; then the holders release / the event is set with timeout-0 newcomers racing.  Liveness monitor:
+             an available primitive must serve a confirmed waiter within bound_ms (real time; an alarm is re-run twice by
+             c19run and reported only when it reproduces).  In the quick tier they run on a second server in parallel.
 Parameters are drawn from ctx.rng; the goroutine schedules themselves are whatever the Go runtime / kernel produce.
 """
 import glob, json, os, shutil, tempfile, time
@@ -19,7 +25,11 @@ MANIFEST = {
                  "C19_rwlock_unlimited_readers_branch", "C19_rlock_only_holder_reenters", "C19_rlock_balanced_unlocks",
                  "C19_prioritylock_exclusive", "C19_prioritylock_queue_head_is_max",
                  "C19_prioritylock_handover_newcomer_window",
-                 "C19_event_wait_admission", "C19_event_wait_wake_pass"],
+                 "C19_event_wait_admission", "C19_event_wait_wake_pass",
+                 "C19_waited_flag_covers_live_waiters", "C19_release_serves_queue_head", "C19_lock_handover_after_timeout",
+                 "C19_semaphore_handover_after_timeout", "C19_prioritylock_handover_after_timeout",
+                 "C19_event_set_releases_all_after_timeout", "C19_event_clearmode_wait_timeout_serves_other_waits",
+                 "C19_handover_needs_the_timeout_guard"],
     "generated": ["coq/Gen/GenClient.v"],
     "harness": "harness/client",
     "ports": "127.0.0.1:15600-15699",
@@ -66,6 +76,24 @@ def draw(rng, sid, prim, dur_ms, **kw):
     return sc
 
 
+HO_PRIMS = ["lock", "rlock", "semaphore", "flow", "rwlock", "priority", "event-set", "event-clear"]
+
+
+def draw_handover(rng, sid, prim, dur_ms, **kw):
+    """hand-over scenario: `goroutines` = waiters + timeout-0 newcomers of one round (holders come on top: 1, n for
+    Semaphore/Flow, 1-2 for RWLock readers), so 3..64 actors on 1..8 connections"""
+    ds = True
+    if prim.startswith("event"):
+        ds, prim = prim.endswith("set"), "event"
+    sc = {"id": sid, "prim": prim, "kind": "handover", "goroutines": rng.choice([3, 4, 5, 6, 8, 12, 16, 24, 40, 62]),
+          "conns": rng.randint(1, 8), "n": rng.randint(1, 5), "keys": 1, "duration_ms": dur_ms,
+          "hold_us_max": rng.choice([20, 200, 1000]), "via": "leader", "proxy": False, "cuts": 0, "seed": rng.randrange(1, 2 ** 31),
+          "expried": 60, "timeout": 30, "default_set": ds, "rounds": 0, "late": False, "shared_obj": False,
+          "short_ms": rng.choice([120, 200, 300, 450]), "bound_ms": 2000, "cancel": prim == "lock" and rng.random() < 0.7}
+    sc.update(kw)
+    return sc
+
+
 def plan(ctx, tier):
     rng = ctx.rng
     batches = []
@@ -84,6 +112,13 @@ def plan(ctx, tier):
         rp = rng.choice(["lock", "semaphore", "flow", "rwlock", "rlock"])
         scs.append(draw(rng, rp + "-reconnect", rp, 7000, proxy=True, cuts=1, goroutines=rng.choice([8, 16, 32])))
         batches.append(scs)
+        # second server, in parallel: waiters that time out / are cancelled while others keep waiting, then the hand-over
+        ho = [draw_handover(rng, p + "-handover", p, 2300) for p in HO_PRIMS]
+        sp = rng.choice(HO_PRIMS[:7])
+        ho.append(draw_handover(rng, sp + "-handover-seconds", sp, 3500, short_ms=0, goroutines=rng.choice([3, 5, 8])))   # second wheel
+        fp = rng.choice(HO_PRIMS[:7])
+        ho.append(draw_handover(rng, fp + "-handover-follower", fp, 2300, via="follower"))
+        batches.append(ho)
     else:
         budget_ms = int(os.environ.get("C19_THOROUGH_MS", "1080000"))
         nb = 4
@@ -109,6 +144,16 @@ def plan(ctx, tier):
                     kw["late"] = rng.random() < 0.5
                 b.append(draw(rng, "%s-%s-%d" % (p, kind, i), p, dur, **kw))
                 used += dur + 300
+            for p in HO_PRIMS:
+                kind = rng.choice(["handover", "handover", "handover-follower", "handover-seconds"])
+                kw, dur = {}, 5000
+                if kind.endswith("follower"):
+                    kw["via"] = "follower"
+                elif kind.endswith("seconds"):
+                    kw["short_ms"] = 0
+                    dur = 8000
+                b.append(draw_handover(rng, "%s-%s-%d" % (p, kind, i), p, dur, **kw))
+                used += dur + 300
             i += 1
         batches = [b for b in per_batch if b]
     return batches
@@ -129,13 +174,14 @@ def corpus_scenarios():
 
 
 # --------------------------------------------------------------------------------------- running
-def run_batch(ctx, exe, server, scenarios, follower, label):
+def run_batch(ctx, exe, server, scenarios, follower, label, port_lo=PORT_LO, port_hi=PORT_HI):
     scratch = tempfile.mkdtemp(prefix="c19-")
-    cfg = {"seed": ctx.seed, "server_bin": server, "port_lo": PORT_LO, "port_hi": PORT_HI, "scratch": scratch,
+    cfg = {"seed": ctx.seed, "server_bin": server, "port_lo": port_lo, "port_hi": port_hi, "scratch": scratch,
            "follower": follower, "scenarios": scenarios}
     cfgp, outp = os.path.join(scratch, "cfg.json"), os.path.join(scratch, "out.json")
     json.dump(cfg, open(cfgp, "w"))
-    tmo = sum(s["duration_ms"] for s in scenarios) / 1000.0 * 2.5 + 180
+    # a hand-over scenario with a liveness alarm is run three times
+    tmo = sum(s["duration_ms"] * (3.2 if s.get("kind") == "handover" else 1) for s in scenarios) / 1000.0 * 2.5 + 180
     try:
         rc, out, dt = vlib.sh([exe, "-cfg", cfgp, "-out", outp], timeout=tmo, cwd=scratch)
         res = None
@@ -156,14 +202,23 @@ def run(ctx):
     gen_ok, gen_out = gen_client_params(ctx)
     ctx.obligation("gen/clientparams regenerates coq/Gen/GenClient.v from client/*.go", gen_ok, "" if gen_ok else gen_out[-800:])
     unsupported = "gen_unsupported" in (gen_out or "")
-    ok, log = ctx.coq(["Properties/C19.vo"])
+    # two files so that a broken hand-over proof (e.g. a flipped guard switch) does not take the admission theorems with it
+    # (built one after the other: the Print Assumptions blocks of two parallel coqc runs would interleave)
+    ok1, log = ctx.coq(["Properties/C19.vo"])
+    fail1 = "" if ok1 else getattr(ctx, "coq_failure", "")
+    ok2, log2 = ctx.coq(["Properties/C19_handover.vo"])
+    fail2 = "" if ok2 else getattr(ctx, "coq_failure", "")
+    ok = ok1 and ok2
+    ctx.coq_failure = "; ".join(x for x in (fail1, fail2) if x)
     proved = set(ctx.assumption_report.keys())
     for th in MANIFEST["theorems"]:
-        ctx.obligation(th, ok and th in proved, "" if ok else getattr(ctx, "coq_failure", "")[:600])
+        ctx.obligation(th, th in proved, "" if th in proved else ctx.coq_failure[:600])
+    ctx.obligation("Properties/C19.v and Properties/C19_handover.v compile completely (non-vacuity Examples included)", ok,
+                   "" if ok else ctx.coq_failure[:600])
     proof_broken = (not ok) or (not gen_ok)
     if tier == "thorough" and ok:
-        cok, cout = ctx.coqchk(["Slock.Properties.C19"])
-        ctx.obligation("coqchk -o Slock.Properties.C19", cok, "" if cok else cout[-600:])
+        cok, cout = ctx.coqchk(["Slock.Properties.C19", "Slock.Properties.C19_handover"])
+        ctx.obligation("coqchk -o Slock.Properties.C19 Slock.Properties.C19_handover", cok, "" if cok else cout[-600:])
         ctx.notes.append("coqchk: " + " ".join(cout.split())[-400:])
 
     # 3. harness + server from the checked tree
@@ -193,9 +248,25 @@ def run(ctx):
     n_viol_raw = 0
     sig_counts = {}
     anomalies = []
+    # quick tier: the batches run in parallel, each on its own server(s) and its own part of the port range
+    batch_results = {}
+    if tier == "quick" and len(batches) > 1 and not getattr(ctx, "replay", None):
+        import concurrent.futures
+        span = (PORT_HI - PORT_LO + 1) // len(batches)
+        with concurrent.futures.ThreadPoolExecutor(max_workers=len(batches)) as pool:
+            futs = {}
+            for bi, scs in enumerate(batches):
+                need_f = any(s.get("via") == "follower" for s in scs)
+                futs[bi] = pool.submit(run_batch, ctx, exe, server, scs, need_f, "batch%d" % bi,
+                                       PORT_LO + bi * span, PORT_LO + (bi + 1) * span - 1)
+            for bi, f in futs.items():
+                batch_results[bi] = f.result()
     for bi, scs in enumerate(batches):
         need_f = any(s.get("via") == "follower" for s in scs)
-        rc, out, res, dt = run_batch(ctx, exe, server, scs, need_f, "batch%d" % bi)
+        if bi in batch_results:
+            rc, out, res, dt = batch_results[bi]
+        else:
+            rc, out, res, dt = run_batch(ctx, exe, server, scs, need_f, "batch%d" % bi)
         if res is None:
             fatal.append("batch %d: harness produced no result (rc=%s): %s" % (bi, rc, out[-800:]))
             ctx.violation("harness:no-result", "c19run died or hung (rc=%s); the runtime check could not be evaluated" % rc,
@@ -273,12 +344,33 @@ def run(ctx):
     elif proof_broken:
         ctx.notes.append("proof obligations broken: " + ", ".join(n for n, o, _ in ctx.obligations if not o))
 
+    ho = [r for r in ran if (r.get("extra") or {}).get("handover_rounds") is not None]
+    hsum = lambda k: sum((r.get("extra") or {}).get(k, 0) or 0 for r in ho)
+    handover = {
+        "scenarios": len(ho), "primitives": sorted({r["prim"] for r in ho}), "via": sorted({r["via"] for r in ho}),
+        "rounds": hsum("handover_rounds"), "rounds_confirmed_by_admin_listing": hsum("handover_rounds_confirmed"),
+        "rounds_unconfirmed_not_judged": hsum("handover_rounds_unconfirmed"), "rounds_aborted": hsum("handover_rounds_aborted"),
+        "waiters_timed_out_while_others_waited": hsum("handover_short_timeouts"), "waiters_cancelled": hsum("handover_cancels"),
+        "confirmed_waiters_served": hsum("handover_confirmed_waiters_served"),
+        "confirmed_waiters_not_served": hsum("handover_confirmed_waiters_not_served"),
+        "timeout0_newcomer_attempts": hsum("handover_newcomer_attempts"), "timeout0_newcomers_granted": hsum("handover_newcomer_granted"),
+        "stalls": hsum("handover_stalls"),
+        "longest_available_with_confirmed_waiter_us": max([(r.get("extra") or {}).get("max_available_with_waiter_us", 0) or 0 for r in ho] or [0]),
+        "bound_ms": 2000,
+        "liveness_alarms_first_run": hsum("liveness_alarms_first_run"),
+        "liveness_alarms_dropped_not_reproduced": hsum("liveness_alarms_dropped_not_reproduced"),
+    }
+    if handover["liveness_alarms_dropped_not_reproduced"]:
+        ctx.notes.append("liveness alarm(s) not reproduced in two re-runs (machine stall): %d" % handover["liveness_alarms_dropped_not_reproduced"])
+
     ctx.trusted += [
         "gen/clientparams (Go, go/parser+go/ast): syntactic extraction of the Count/Rcount/flag arguments of the client constructors into coq/Gen/GenClient.v; unsupported expressions become gen_unsupported (theorems stop checking)",
         "coq/Client/Prims.v `admit` is a HAND transcription of LockDB.doLock (server/db.go:2517-2549) without the LESS_LOCK_VERSION flag; its equality with the translator-generated doLock and the refinement to the engine model are the integrator's obligations (C01)",
         "theorems are about the abstract per-key admission model only; request/response matching, timeouts and reconnect logic of client/slock.go, TCP batching, follower forwarding: OBSERVED by the runtime monitors, not proved",
         "runtime monitors (harness/client/scenario.go) and the in-process cutting proxy; goroutine schedules are the Go runtime's (seed fixes parameters only)",
         "holds within 1.5 s of their expiry are discarded by the monitor (the server may have expired them)",
+        "coq/Client/WaitQueue.v is a HAND model of one key's wait queue (AddWaitLock / GetWaitLock / doTimeOut and cancelWaitLock waiter branches / wakeUpWaitLocks, server/lock.go + server/db.go) at the abstraction level of Prims.v; tie = the regenerated switches timeout_clears_waited_only_on_empty_queue / cancel_clears_waited_only_on_empty_queue / *_runs_wake_pass (syntactic, gen/clientparams) + the hand-over monitors; that every release/timeout/cancel leaves a wake-up pass pending is the engine-level family C04_*_pending (coq/Properties/C04.v), composed by hypothesis, not imported",
+        "liveness monitor (scenario_handover.go): real-time bound 2 s, waiters judged only when the server's own listing (LIST_WAIT; STATE WaitCount for default-clear events) showed exactly the client-side pending long waiters; an alarm is re-run twice and dropped when it does not reproduce",
     ]
     cov = {
         "evaluations": sum(r["attempts"] for r in ran),
@@ -288,6 +380,7 @@ def run(ctx):
         "scenarios_run": len(ran), "scenarios_skipped": skipped,
         "per_primitive": per_prim,
         "history_events": sum(r["events"] for r in ran),
+        "handover": handover,
         "monitor_violations_raw": n_viol_raw, "monitor_violation_signatures": sig_counts,
         "follower": sorted(follower_state) or ["not started in this run"],
         "schedules": "produced by the Go runtime and kernel; VERIF_SEED fixes goroutine counts, connections, n, keys, hold times, priorities, cut times only",
@@ -300,5 +393,6 @@ def run(ctx):
         "a client-side 'definite hold' lasts from the return of a successful acquire to the call of the release; overlap in the global logical clock implies overlap in real time",
         "expiry (expried) and wait timeouts are chosen far above the hold times; holds close to expiry are excluded",
         "PriorityLock waiters count as definitely waiting only once the server's LIST_WAIT reports them queued",
+        "hand-over liveness: the primitive counts as available only while fewer actors than the limit can possibly hold it (acquire returned ok and release not yet returned ok, or a non-confirmed acquire in flight); a confirmed waiter is judged only while its own timeout is more than 500 ms away; bound 2 s of real time on a possibly loaded machine",
     ]
     return ctx.finish(cov, assumptions, level="proof")
